@@ -5,6 +5,10 @@ deeper ones), MiniC programs (drivers/minic_gen.py: functions, loops, pointers, 
 and C14's generated expression / statement programs (struct members).  Every translation unit is analysed with
 `cppcheck --clang=clang-14 --dump`:
   * never crashes: every run must end normally (a signal or a timeout is a violation);
+  * the text the importer is given: harness/clangtee stands in for the clang executable and records the clang process that
+    cppcheck really started (argv, where fd 1 / fd 2 lead, every write(2) via strace); TLC validates the writes of every run
+    as a behaviour of spec/ClangStream.tla (ClangStreamTrace.tla) and evaluates Intact (the AST dump reaches the importer
+    undisturbed by clang's stderr) in every state; the design is checked exhaustively for small constants on every run;
   * when the run completes without an internal error the dump must satisfy the invariants of spec/DumpInv.tla
     (C14's machinery: drivers/dump2nd.py projections, TLC evaluates DumpInv.tla);
   * the variable / function links of the imported model must agree with clang's own referencedDecl: TLC evaluates
@@ -23,6 +27,7 @@ import vlib
 
 sys.path.insert(0, os.path.join(vlib.VERIF, "drivers"))
 import clangrefs  # noqa: E402
+import clangstream  # noqa: E402
 import dump2nd  # noqa: E402
 import minic_gen  # noqa: E402
 import render as minic_render  # noqa: E402
@@ -38,7 +43,9 @@ META = {
     "text": "Programs generated from Scopes.tla by TLC (namespaces, classes, member functions, blocks, for-init declarations, shadowing, "
             "qualified names, overloads), seeded MiniC programs (loops, pointers, arrays, switch, helper calls; C and C++) and C14's expression / "
             "struct programs are analysed with cppcheck --clang=clang-14 --dump. Every run must terminate normally (signal / timeout = "
-            "violation); every dump of a run without internal error is judged by TLC against all DumpInv.tla invariants (ids, references, "
+            "violation); the clang process cppcheck starts is recorded (argv, descriptors, every write; harness/clangtee + strace) and "
+            "validated by TLC as a behaviour of ClangStream.tla whose invariant Intact says that the AST dump reaches the importer "
+            "undisturbed by clang's stderr (checked exhaustively on the design for small buffer sizes / dump lengths as well); every dump of a run without internal error is judged by TLC against all DumpInv.tla invariants (ids, references, "
             "links, AST forest, scope tree, variable/varId agreement); and TLC (ScopesJudge.tla, mode refs) checks for every name token that "
             "the imported variable / function link leads to the declaration clang's own AST (the importer's input) resolves it to and that "
             "tokens of different declarations never share a varId. Crash-freedom over all clang-accepted programs can only be sampled; the "
@@ -49,7 +56,8 @@ META = {
             "lines where the counts differ are left unobserved and counted), TLC. Lambda bodies are not imported by cppcheck (?LambdaExpr?) "
             "and therefore not observed.",
     "technique": "TLC-generated programs (Scopes.tla) + seeded program generators; TLA+ invariants (DumpInv.tla) and link agreement "
-                 "(ScopesJudge.tla) evaluated by TLC on state recorded from the real binary",
+                 "(ScopesJudge.tla) evaluated by TLC on state recorded from the real binary; trace validation of the clang child "
+                 "process against ClangStream.tla",
 }
 
 NPROC = 6
@@ -78,6 +86,28 @@ def check_clang():
         raise vlib.InfraError("%s is not runnable here (%s): cppcheck --clang cannot be exercised" % (CLANG, (out + err)[:200]))
 
 
+STRACE = {"ok": None}
+
+
+def check_strace():
+    """The write trace of the clang process needs strace; where it cannot trace, the runs are made without it (recorded)."""
+    if STRACE["ok"] is None:
+        rc, out, err = vlib.run(["strace", "-qq", "-o", "/dev/null", "-e", "trace=write", "true"], timeout=60)
+        STRACE["ok"] = rc == 0
+    return STRACE["ok"]
+
+
+def probe_unit(lang):
+    """A fixed unit that clang warns about and whose AST dump needs several flushes of clang's stdout buffer: the stream
+    observation is never vacuous (a merged run with diagnostics and more than one write to fd 1)."""
+    lines = ["int sp_g;"]
+    for k in range(24):
+        lines += ["int sp_f%d(unsigned char a, int b)" % k, "{", "    int x = b + %d;" % k, "    if (a <= 1000)", "        x = x * b - a;",
+                  "    while (x > %d) { x = x / 2; sp_g = sp_g + x; }" % (k + 3), "    return x;", "}"]
+    return {"kind": "generic", "lang": lang, "fname": "sp.c" if lang == "c" else "sp.cpp", "text": "\n".join(lines) + "\n",
+            "label": "stream-probe:%s" % lang}
+
+
 # ------------------------------------------------------------------------------------------------ inputs
 def scopes_units(tier, seed):
     """Translation units made of Scopes.tla programs -> [{"kind": "scopes", "lang", "fname", "text", "progs": [(tag, row)], "table"}]"""
@@ -96,7 +126,7 @@ def scopes_units(tier, seed):
 
 def generic_units(tier, seed):
     """MiniC programs (each as C and as C++) and C14's generated programs."""
-    units = []
+    units = [probe_unit("c"), probe_unit("c++")]
     n = 4 if tier == "quick" else 40
     for profile in ("mix", "ptr", "loop", "cond"):
         progs = minic_gen.generate(seed * 101 + len(profile), "p32", profile, n, "m%s" % profile[0])
@@ -112,9 +142,20 @@ def generic_units(tier, seed):
 
 
 # ------------------------------------------------------------------------------------------------ one run
-def cppcheck_clang(work, fname, builddir):
-    """-> (status, detail, dump path). status: ok | internal-error | nodump | crash | timeout"""
-    args = ["--clang=" + CLANG, "--dump", "-q"]
+def cppcheck_clang(work, fname, builddir, label=""):
+    """-> (status, detail, dump path, stream). status: ok | internal-error | nodump | crash | timeout; stream: the recorded
+    clang process (clangstream.read_run) or None"""
+    st, detail, dump, prefix = cppcheck_clang1(work, fname, builddir)
+    stream = clangstream.read_run(prefix, label) if STRACE["ok"] and st not in ("timeout",) else None
+    return st, detail, dump, stream
+
+
+def cppcheck_clang1(work, fname, builddir):
+    prefix = os.path.join(work, "tee.b" if builddir else "tee.a")
+    for ext in (".argv", ".fds", ".strace"):
+        if os.path.exists(prefix + ext):
+            os.unlink(prefix + ext)
+    args = ["--clang=" + (clangstream.TEE if STRACE["ok"] else CLANG), "--dump", "-q"]
     if builddir:
         bd = os.path.join(work, "bd")
         shutil.rmtree(bd, ignore_errors=True)
@@ -124,16 +165,16 @@ def cppcheck_clang(work, fname, builddir):
     if os.path.exists(dump):
         os.unlink(dump)
     # language by file extension, exactly what a user of --clang gets
-    rc, out, err = C08.run_cppcheck_retry(args + [fname], cwd=work, timeout=300)
+    rc, out, err = C08.run_cppcheck_retry(args + [fname], cwd=work, timeout=300, env={"CLANGTEE_LOG": prefix})
     if rc is None:
-        return "timeout", "timeout", dump
+        return "timeout", "timeout", dump, prefix
     if rc < 0 or rc > 1:
-        return "crash", ("signal%d" % -rc) if rc < 0 else ("exit%d" % rc), dump
+        return "crash", ("signal%d" % -rc) if rc < 0 else ("exit%d" % rc), dump, prefix
     if "nternal" in err or "syntaxError" in err:
-        return "internal-error", err[:300], dump
+        return "internal-error", err[:300], dump, prefix
     if not os.path.exists(dump):
-        return "nodump", err[:300], dump
-    return "ok", "", dump
+        return "nodump", err[:300], dump, prefix
+    return "ok", "", dump, prefix
 
 
 def run_unit(unit):
@@ -142,7 +183,8 @@ def run_unit(unit):
     imported model is observed on run b if it was made, on run a otherwise."""
     work = vlib.mktmp("c35")
     res = {"label": unit["label"], "kind": unit["kind"], "clang": "ok", "diag": False, "a": "", "asig": "", "b": "", "bsig": "", "detail": "",
-           "digest": vlib.digest(unit["text"]), "link_rows": [], "dump_rows": [], "unobserved": 0, "tokens": 0, "consistency": ""}
+           "digest": vlib.digest(unit["text"]), "link_rows": [], "dump_rows": [], "unobserved": 0, "tokens": 0, "consistency": "",
+           "streams": []}
     try:
         path = os.path.join(work, unit["fname"])
         with open(path, "w") as f:
@@ -153,13 +195,17 @@ def run_unit(unit):
             res["detail"] = cl["err"][:400]
             return res
         res["diag"] = bool(cl["diag"].strip())
-        res["a"], res["asig"], dump = cppcheck_clang(work, unit["fname"], False)
+        res["a"], res["asig"], dump, stream = cppcheck_clang(work, unit["fname"], False, unit["label"] + "|plain")
+        if stream:
+            res["streams"].append(stream)
         res["detail"] = res["asig"]
         used = "a"
         if res["diag"]:
             if res["a"] == "ok":            # keep nothing of run a but how it ended
                 os.unlink(dump)
-            res["b"], res["bsig"], dump = cppcheck_clang(work, unit["fname"], True)
+            res["b"], res["bsig"], dump, stream = cppcheck_clang(work, unit["fname"], True, unit["label"] + "|builddir")
+            if stream:
+                res["streams"].append(stream)
             used = "b"
         res["consistency"] = res[used]
         if res[used] != "ok":
@@ -190,6 +236,7 @@ def run_unit(unit):
 
 def run_all(units):
     vlib.tmproot()
+    check_strace()          # before the pool is forked: the workers inherit the answer
     with concurrent.futures.ProcessPoolExecutor(NPROC) as ex:
         return list(ex.map(run_unit, units))
 
@@ -273,15 +320,25 @@ def main(tier, seed, replay=None):
     ok = [r for r in results if r["consistency"] == "ok"]
     dump_rows = [row for r in ok for row in r["dump_rows"]]
     link_rows = [row for r in ok for row in r["link_rows"]]
-    with concurrent.futures.ThreadPoolExecutor(3) as ex:
+    streams = [st for r in results for st in r["streams"]]
+    with concurrent.futures.ThreadPoolExecutor(5) as ex:
         f_runs = ex.submit(judge_runs, results)
         f_dump = ex.submit(judge_dumps, dump_rows)
         f_link = ex.submit(C08.tlc_judge, link_rows, "refs")
+        f_stream = ex.submit(clangstream.validate, streams)
+        f_design = ex.submit(clangstream.design)
         bad_runs = f_runs.result()
         bad_dump, nbatches = f_dump.result()
         bad_link = f_link.result()
+        bad_stream, stream_stats = f_stream.result()
+        design_stats = f_design.result()
 
     violations = []
+    for b in bad_stream:
+        u = by_label[b["label"].rsplit("|", 1)[0]]
+        violations.append({"key": b["key"], "what": "%s: %s\n%s" % (b["label"], b["what"], u["text"][:800]),
+                           "replay": vlib.save_replay(PID, "stream-" + vlib.digest([b["key"]]),
+                                                      {"kind": "stream", "unit": {k: u[k] for k in UNIT_KEYS}, "verdict": b})})
     run_classes = {}
     for b in bad_runs:
         u = by_label[b["label"]]
@@ -354,17 +411,24 @@ def main(tier, seed, replay=None):
         "name_tokens": tokens, "name_tokens_unobserved": unobserved, "name_tokens_linked": linked,
         "link_violating_programs": sum(1 for b in bad_link if b["verdict"] == "violation"), "link_classes": len(link_classes),
         "abnormal_runs": len(bad_runs), "abnormal_run_classes": len(run_classes), "known_findings": known,
+        "stream_trace": "strace" if STRACE["ok"] else "unavailable: strace cannot trace processes here; the clang processes were not recorded",
+        "stream_violating_runs": len(bad_stream), "ClangStream_design_distinct_states": design_stats,
         "wall_generate_s": round(t_gen, 1), "wall_run_s": round(t_run, 1),
     }
+    cov.update(stream_stats)
     vlib.write_evidence(PID, tier, seed, "exploration", cov, time.time() - t0, violations=new,
                         assumptions=["clang-14's JSON AST and its text AST (the importer's input) describe the same resolution",
                                      "tokens of the imported model are matched to source tokens by line, spelling and order on the line",
                                      "runs that end with an internal error are not judged for consistency (the property exempts them); they are counted",
-                                     "for units with clang diagnostics the consistency is observed on the run with a build directory (clean AST stream)"])
+                                     "for units with clang diagnostics the consistency is observed on the run with a build directory",
+                                     "strace reports every write(2) of the clang process in order; harness/clangtee passes arguments, "
+                                     "descriptors and exit status through unchanged"])
     print("C35 %s: %d units %s; %d Scopes programs + %d generic units; %d dumps judged by DumpInv (%d violating), %d programs judged for links "
-          "(%d name tokens, %d linked, %d unobserved), %d link classes, %d abnormal runs in %d classes (%d known)"
+          "(%d name tokens, %d linked, %d unobserved), %d link classes, %d abnormal runs in %d classes (%d known); "
+          "%d clang processes validated against ClangStream.tla (%d events, %d merged with diagnostics and several flushes, %d violating)"
           % (tier, len(results), status, nprogs, len(gunits), len(dump_rows), len(bad_dump), len(link_rows), tokens, linked, unobserved,
-             len(link_classes), len(bad_runs), len(run_classes), known))
+             len(link_classes), len(bad_runs), len(run_classes), known, stream_stats["stream_runs"], stream_stats["stream_events"],
+             stream_stats["stream_runs_merged_with_fd2_writes_and_several_fd1_writes"], len(bad_stream)))
     srej = [r for r in rejected if r["kind"] == "scopes"]
     if srej:
         raise vlib.InfraError("clang rejects %d translation units of Scopes.tla programs: %s" % (len(srej), srej[0]["detail"]))
@@ -381,11 +445,14 @@ def do_replay(path):
         u = {"kind": "scopes", "lang": payload["lang"], "fname": "u.c" if payload["lang"] == "c" else "u.cpp", "text": text, "progs": [("0", row)],
              "table": table, "label": "replay"}
     print(u["text"])
+    check_strace()
     r = run_unit(u)
     print("clang: %s; run a: %s %s; run b: %s %s" % (r["clang"], r["a"], r["asig"], r["b"], r["bsig"]))
     if r["clang"] != "ok":
         return 0
     bad_runs = judge_runs([r])
+    bad_stream, _ = clangstream.validate(r["streams"])
+    bad_runs += bad_stream
     for b in bad_runs:
         print(json.dumps(b))
     bad_dump, bad_link = {}, []
